@@ -313,13 +313,24 @@ def _b_sorted(ex, st, args, kw, node):
     inv = uf('sorted_inv', SEQ, I, z3.ArraySort(I, I))(arr, n)
     j = z3.Int(fresh_name('j'))
     rng = z3.And(j >= 0, j < n)
+    sarr = z3.simplify(arr)          # `select(store(elems, r, a), r)` -> a: the trigger E-matching actually meets
+    sn = z3.simplify(n)
+    if not (sarr.eq(arr) and sn.eq(n)):
+        # ground congruences spelled out (same function, equal arguments)
+        st.assume(z3.Implies(z3.And(sarr == arr, sn == n), z3.And(
+            uf('sorted_arr', SEQ, I, SEQ)(sarr, sn) == out_arr,
+            uf('sorted_perm', SEQ, I, z3.ArraySort(I, I))(sarr, sn) == perm,
+            uf('sorted_inv', SEQ, I, z3.ArraySort(I, I))(sarr, sn) == inv)))
     # consequences of the bijection axioms of the core LIBSPEC (nothing new is assumed): every source element sits
     # at position inv[j] of the result, every result element comes from position perm[j] of the source
     try:
         st.assume(z3.ForAll([j], z3.Implies(rng, z3.And(z3.Select(inv, j) >= 0, z3.Select(inv, j) < n,
                                                        z3.Select(perm, z3.Select(inv, j)) == j,
                                                        z3.Select(out_arr, z3.Select(inv, j)) == z3.Select(arr, j))),
-                            patterns=[z3.Select(arr, j)]))
+                            patterns=[z3.Select(arr, j)] + ([z3.Select(sarr, j)] if not sarr.eq(arr) else [])))
+        j2 = z3.Int(fresh_name('j'))
+        st.assume(z3.ForAll([j, j2], z3.Implies(z3.And(j >= 0, j < j2, j2 < n), z3.Select(inv, j) != z3.Select(inv, j2)),
+                            patterns=[z3.MultiPattern(z3.Select(inv, j), z3.Select(inv, j2))]))
         st.assume(z3.ForAll([j], z3.Implies(rng, z3.And(z3.Select(perm, j) >= 0, z3.Select(perm, j) < n,
                                                        z3.Select(out_arr, j) == z3.Select(arr, z3.Select(perm, j)))),
                             patterns=[z3.Select(out_arr, j)]))
